@@ -77,12 +77,17 @@ def check_stream(ctx, o, spec, tag, label, case, cache_hits_expected=None):
 class FlakySetCache:
     """A user-supplied backend whose k-th write fails (quota, full disk): reads and the other writes work."""
 
-    def __init__(self, fail_at):
+    def __init__(self, fail_at, get_fail_at=None):
         from hypergraph import InMemoryCache
 
         self.inner, self.fail_at, self.sets = InMemoryCache(), fail_at, 0
+        self.get_fail_at, self.gets = get_fail_at, 0
 
     def get(self, key):
+        # optionally the k-th LOOKUP fails (backend unreachable): the run fails, with a complete span tree
+        self.gets += 1
+        if self.gets == self.get_fail_at:
+            raise ConnectionError("cache backend: lookup failed")
         return self.inner.get(key)
 
     def set(self, key, value):
@@ -109,6 +114,7 @@ def variants(ctx, fam):
     # failing nodes; half of the exceptions have an EMPTY message (a failure is a failure whatever str(e) is)
     fails = [None] + ([{f: (RuntimeError(f"boom {f}") if rng.random() < 0.5 else RuntimeError())} for f in rng.sample(fids, min(2, len(fids)))] if fids else [])
     flaky_at = rng.randint(1, 4) if fam["family"] == "cached" and rng.random() < 0.5 else None
+    flaky_get = flaky_at is not None and rng.random() < 0.5
     nstreams = 0
     for fail in fails:
         modes = ("raise",) if fail is None else ("raise", "continue")
@@ -120,8 +126,9 @@ def variants(ctx, fam):
             if fam["family"] == "cached":
                 from hypergraph import InMemoryCache
 
-                cache = InMemoryCache() if flaky_at is None else FlakySetCache(flaky_at)
+                cache = InMemoryCache() if flaky_at is None else (FlakySetCache(0, flaky_at) if flaky_get else FlakySetCache(flaky_at))
                 ctx.obs["flaky_cache_configs"] += int(flaky_at is not None)
+                ctx.obs["flaky_lookup_configs"] += int(flaky_at is not None and flaky_get)
             c2 = {**case, "fail": sorted(fail) if fail else None, "mode": mode}
             runs = 2 if cache is not None else 1
             for rep in range(runs):
